@@ -401,6 +401,54 @@ theorem C30_toc_legacy_v2 (ext : Nat → Bytes → Option Bytes) (l : Value) (ex
   · cases hrm : remap fromV2 l <;> simp [hne, hrm]
   · simp [hne]
 
+theorem toc_schemas_wf : wfSchema tocSchema = true ∧ wfSchema tocV2Schema = true ∧ wfSchema tocV1Schema = true := by decide
+
+/-- **C30_toc_decode_wellformed** — whatever the current-format path of `Toc::decode` returns
+    (lenient leaves included) is a well-typed TOC, and its canonical encoding decodes to the same
+    value: the decoder never produces a value outside the type, and never one that its own
+    encoder would not reproduce. -/
+theorem C30_toc_decode_wellformed (ext : Nat → Bytes → Option Bytes) (hext : ExtCanonical ext)
+    (b : Bytes) (t : Value) (h : decodeLim ext tocSchema b = some (t, [])) :
+    WellTyped ext tocSchema t ∧ decodeToc ext b = .ok t ∧
+    ((encodeToc t).length ≤ LIMIT → decodeToc ext (encodeToc t) = .ok t) := by
+  have hd : decode ext tocSchema b = some (t, []) := by
+    unfold decodeLim at h
+    split at h
+    · rename_i v rest hv
+      split at h
+      · injection h with h; injection h with e1 e2; subst e1 e2; exact hv
+      · cases h
+    · cases h
+  have hw := decode_wt ext hext tocSchema toc_schemas_wf.1 b t [] hd
+  refine ⟨hw, by simp [decodeToc, h], fun hl => C30_toc_roundtrip ext t hw hl⟩
+
+/-- **C30_bincode_decode_welltyped** — third generic theorem: at every schema, lenient leaves
+    included, a successful decode returns a value of the type (well typed), provided the foreign
+    parser returns canonical strings; so `decode (encode (decode b)) = decode b`. -/
+theorem C30_bincode_decode_welltyped (ext : Nat → Bytes → Option Bytes) (hext : ExtCanonical ext)
+    (s : Schema) (hw : wfSchema s = true) (b : Bytes) (v : Value) (rest : Bytes)
+    (h : decode ext s b = some (v, rest)) :
+    WellTyped ext s v ∧ ∀ rest', decode ext s (encode s v ++ rest') = some (v, rest') :=
+  ⟨decode_wt ext hext s hw b v rest h, fun r => decode_normal_form ext hext s hw b v rest h r⟩
+
+/-- non-vacuity of `ExtCanonical`: a parser that accepts exactly the valid UTF-8 strings shorter
+    than 2^64 and returns them unchanged.  (The driver's identity `extId` is NOT canonical in this
+    sense — it would return invalid UTF-8 unchanged — which is harmless there because `strExt`
+    hands it only strings that already passed the UTF-8 check; the theorem is stated for parsers
+    that are.) -/
+def extStrict (_ : Nat) (x : Bytes) : Option Bytes :=
+  if utf8Valid x = true ∧ x.length < 2^64 then some x else none
+
+example : ExtCanonical extStrict := by
+  intro k x x' h
+  unfold extStrict at h
+  split at h
+  · rename_i hc
+    injection h with h
+    subst h
+    exact ⟨hc.2, hc.1, by simp [extStrict, hc]⟩
+  · cases h
+
 /-- **C30_toc_checksum_iff** — exactly when `verify_checksum` accepts: the stored checksum is the
     hash of the current encoding with the checksum zeroed, or — only for a TOC without replay
     manifest — of the V2 re-encoding, or — only without replay manifest and memories track — of
